@@ -1355,6 +1355,9 @@ class SpaceManager(SharedSpaceOperations):
 
         # FIX: Creating a Cells of the same name in ``space``
 
+        if not is_valid_name(name) and formula:
+            name = Formula(formula).name    # As in CellsImpl.__init__
+
         if not self._can_add(space, name, CellsImpl):
             raise ValueError("Cannot create cells '%s'" % name)
 
